@@ -81,4 +81,23 @@ def evalFrom {S : Type} (P : Problem S) (depth : Nat) (s : S) (v : Int) : List D
         evalFrom P (depth + 1) s' (v + P.cost s s' d) ds
       else none
 
+/-- default-completed replay (pooled diagrams, long arcs): a variable without a decision in the list is
+    legal iff the state reached so far is not impacted by it; it then contributes cost 0 and leaves
+    the state unchanged.  `fuel` bounds the number of layers. -/
+def evalSkip {S : Type} (P : Problem S) : Nat → Nat → S → Int → List Dec → Option (S × Int × Nat)
+  | 0, depth, s, v, ds => if ds.isEmpty then some (s, v, depth) else none
+  | fuel + 1, depth, s, v, ds =>
+    match P.nextVar depth [s] with
+    | none => if ds.isEmpty then some (s, v, depth) else none
+    | some x =>
+      match ds with
+      | d :: rest =>
+        if d.var = x then
+          (if d.val ∈ P.domain x s then
+            let s' := P.trans s d
+            evalSkip P fuel (depth + 1) s' (v + P.cost s s' d) rest
+           else none)
+        else if P.impacted x s then none else evalSkip P fuel (depth + 1) s v ds
+      | [] => if P.impacted x s then none else evalSkip P fuel (depth + 1) s v []
+
 end Ddo
